@@ -1,6 +1,7 @@
 (* C05 - property theorems. *)
 From ASV Require Import Base Loc.
 From ASV.C05 Require Import Model Proofs.
+From Coq Require Import Permutation.
 
 (* _merge_sets returns the connected components of the "share a protocluster" graph of its input
    sets: (1) the union of all protoclusters is kept, nothing is invented; (2) the returned groups are
@@ -50,6 +51,107 @@ Theorem C05_no_repeated_member_refuted :
 Proof. exact repeated_member_witness. Qed.
 Print Assumptions C05_no_repeated_member_refuted.
 
+(* ---- deepening: statements about the whole formation (create_candidates = create_candidates_from_protoclusters) ---- *)
+
+(* nothing is invented: every candidate has at least one member and every member is one of the supplied
+   protoclusters (the same object, not just the same id); any wrap point *)
+Theorem C05_members_supplied : forall protos w out, create_candidates protos w = Ok out ->
+  forall c, In c out -> cmem c <> [] /\ forall p, In p (cmem c) -> In p protos.
+Proof. exact members_from_input. Qed.
+Print Assumptions C05_members_supplied.
+
+(* each candidate's location is connect_locations of exactly its members' locations (linear and circular) *)
+Theorem C05_location : forall protos w out, create_candidates protos w = Ok out ->
+  forall c, In c out -> connect_locations (map ploc (cmem c)) w = Ok (cloc c).
+Proof. exact location_is_connect. Qed.
+Print Assumptions C05_location.
+
+(* on a linear record with single-part protoclusters the location is one part [s, e) that covers every base of
+   every member, and s and e are the start and the end of members: the span of exactly its members
+   (composition with the C04 lemmas about connect_locations on a line) *)
+Theorem C05_location_linear : forall protos out, create_candidates protos None = Ok out ->
+  (forall p, In p protos -> exists q, ploc p = [q] /\ ps q < pe q) ->
+  forall c, In c out -> exists h, cloc c = [h] /\
+    (forall p x, In p (cmem c) -> ASV.C04.Proofs.base_of (ploc p) x -> ps h <= x < pe h) /\
+    (exists p q, In p (cmem c) /\ ploc p = [q] /\ ps q = ps h) /\
+    (exists p q, In p (cmem c) /\ ploc p = [q] /\ pe q = pe h).
+Proof. exact location_linear. Qed.
+Print Assumptions C05_location_linear.
+
+(* every supplied protocluster is a member (by id) of at least one returned candidate, whenever the function
+   returns.  The proof uses the code's own final check (as many distinct members as protoclusters) and
+   C05_members_supplied: distinct member ids are ids of supplied protoclusters, and there are as many of them
+   as protoclusters, so none is missing - also when several supplied protoclusters share an id.
+   NOT claimed: that the function returns (it raises AssertionError in the recorded class
+   joint_core_wraps_assert); that the final check can never fail is covered by the correspondence only. *)
+Theorem C05_every_proto_covered : forall protos w out, create_candidates protos w = Ok out ->
+  forall p, In p protos -> exists c, In c out /\ inS (pid p) (cmem c).
+Proof. exact every_proto_covered. Qed.
+Print Assumptions C05_every_proto_covered.
+
+(* with distinct ids (distinct objects) the protocluster itself is the member *)
+Theorem C05_every_proto_covered_member : forall protos w out, create_candidates protos w = Ok out ->
+  NoDup (map pid protos) -> forall p, In p protos -> exists c, In c out /\ In p (cmem c).
+Proof. exact every_proto_covered_strong. Qed.
+Print Assumptions C05_every_proto_covered_member.
+
+(* _merge_sets does not depend on the order (nor on the multiplicity) in which the sets are supplied: for two
+   lists with the same elements every returned group has a returned group with the same members on the other side *)
+Theorem C05_merge_sets_order_independent : forall G G', Permutation G G' ->
+  forall h, In h (merge_sets G) -> exists h', In h' (merge_sets G') /\ forall i, inS i h <-> inS i h'.
+Proof. exact merge_sets_perm. Qed.
+Print Assumptions C05_merge_sets_order_independent.
+
+Theorem C05_merge_sets_same_elements : forall G G', (forall g, In g G <-> In g G') ->
+  forall h, In h (merge_sets G) -> exists h', In h' (merge_sets G') /\ forall i, inS i h <-> inS i h'.
+Proof. exact merge_sets_order_independent. Qed.
+Print Assumptions C05_merge_sets_same_elements.
+
+(* chemical hybrids.  (1) the sets handed to _merge_sets by _find_hybrids are pairs of supplied protoclusters
+   that share a defining gene; (2) completeness: two different supplied protoclusters sharing a defining gene
+   are members of one hybrid group; (3) soundness: every hybrid group consists of one component m of that
+   sharing relation (C05_merge_sets_components applied to the pairs: linked by a chain of shared genes, nothing
+   else) plus protoclusters that share with nobody and whose core lies inside connect_locations of m's cores *)
+Theorem C05_hybrid_pairs : forall clusters g, In g (hybrid_pair_groups clusters) ->
+  exists x y, g = [x; y] /\ In x clusters /\ In y clusters /\ defs_intersect x y = true.
+Proof. exact pair_group_spec. Qed.
+Print Assumptions C05_hybrid_pairs.
+
+Theorem C05_hybrids_complete : forall clusters w groups un, find_hybrids clusters w = Ok (groups, un) ->
+  forall a b, In a clusters -> In b clusters -> a <> b -> defs_intersect a b = true ->
+  exists g, In g groups /\ inS (pid a) g /\ inS (pid b) g.
+Proof. exact hybrids_complete. Qed.
+Print Assumptions C05_hybrids_complete.
+
+Theorem C05_hybrids_sound : forall clusters w groups un, find_hybrids clusters w = Ok (groups, un) ->
+  forall g, In g groups -> exists m core, In m (merge_sets (hybrid_pair_groups clusters)) /\
+    connect_locations (map pcore m) w = Ok core /\
+    (forall x, In x m -> In x g) /\
+    forall x, In x g -> In x m \/
+      (In x clusters /\ contains core (pcore x) = true /\ pmem x (concat (hybrid_pair_groups clusters)) = false).
+Proof. exact hybrids_sound. Qed.
+Print Assumptions C05_hybrids_sound.
+
+(* partial version of "no two candidates with the same coordinates and membership": the de-duplication table of
+   build_candidates never holds two candidates under the same (start, end) key, through any sequence of calls.
+   Missing for the full statement: that a promoted replacement still has the coordinates of its key (a fact
+   about connect_locations) and the comparison of the final singles with the table (both checked on every run
+   by the decidable specification, clause "unique coordinates+membership") *)
+Theorem C05_unique_partial : forall w kind groups existing singles e s,
+  build_go w kind groups existing singles = Ok (e, s) -> keys_distinct existing -> keys_distinct e.
+Proof. exact build_go_keys_distinct. Qed.
+Print Assumptions C05_unique_partial.
+
+(* "build_candidates does not depend on the order of the groups" is FALSE: two groups of one call with the same
+   coordinates are united, and only the members of the later one get an extra single *)
+Theorem C05_build_candidates_order_independent_refuted :
+  exists c1 e1 s1 c2 e2 s2,
+    build_candidates None K_HYBRID [oi_g1; oi_g2] [] [] = Ok (c1, e1, s1) /\
+    build_candidates None K_HYBRID [oi_g2; oi_g1] [] [] = Ok (c2, e2, s2) /\
+    map pid s1 = [3; 4] /\ map pid s2 = [1; 2].
+Proof. exact build_candidates_order_dependent. Qed.
+Print Assumptions C05_build_candidates_order_independent_refuted.
+
 (* ---- non-vacuity ---- *)
 Definition ex_p (i s e : Z) : proto := mkProto i [mkPart s e 1] [mkPart s e 1] i [].
 (* the chain that the single-pass _merge_sets split into two groups: {P1,P5},{P2,P3},{P3,P5} *)
@@ -67,3 +169,33 @@ Example C05_ex_singles :
   exists c0, mk_cand None K_NEIGHBOURING [ex_p 1 0 10; ex_p 2 0 10] = Ok c0 /\
   exists ss, singles_go None [((0, 10), c0)] [ex_p 1 0 10; ex_p 3 5 20] = Ok ss /\ map (fun c => map pid (cmem c)) ss = [[3]].
 Proof. eexists. split; [vm_compute; reflexivity|]. eexists. split; [vm_compute; reflexivity|reflexivity]. Qed.
+
+(* the whole formation returns on a linear record with a hybrid pair (shared defining gene 7), a protocluster
+   whose core overlaps the hybrid's core, and a distant one: hypotheses of C05_members_supplied, C05_location,
+   C05_location_linear, C05_every_proto_covered(_member) are met by a non-trivial input *)
+Definition ex_q (i s e cs ce : Z) (defs : list Z) : proto := mkProto i [mkPart s e 1] [mkPart cs ce 1] i defs.
+Definition ex_protos : list proto :=
+  [ex_q 0 0 100 40 60 [7]; ex_q 1 20 120 50 70 [7]; ex_q 2 50 150 65 90 []; ex_q 3 300 400 330 350 []].
+Example C05_ex_formation :
+  exists out, create_candidates ex_protos None = Ok out /\
+    map (fun c => (ckind c, map pid (cmem c))) out
+    = [(K_INTERLEAVED, [0; 1; 2]); (K_HYBRID, [0; 1]); (K_SINGLE, [3])]
+    /\ NoDup (map pid ex_protos).
+Proof.
+  destruct (create_candidates ex_protos None) as [out|k] eqn:E; vm_compute in E; [|discriminate E].
+  inversion E as [E']. eexists. split; [reflexivity|]. split; [vm_compute; reflexivity|].
+  vm_compute. repeat constructor; cbn; intuition discriminate.
+Qed.
+(* hypotheses of C05_hybrids_complete / _sound *)
+Example C05_ex_hybrids :
+  exists groups un, find_hybrids ex_protos None = Ok (groups, un) /\ map (map pid) groups = [[0; 1]] /\
+    defs_intersect (ex_q 0 0 100 40 60 [7]) (ex_q 1 20 120 50 70 [7]) = true.
+Proof.
+  destruct (find_hybrids ex_protos None) as [[g u]|k] eqn:E; vm_compute in E; [|discriminate E].
+  inversion E. eexists. eexists. split; [reflexivity|]. split; vm_compute; reflexivity.
+Qed.
+(* the order of the sets really changes the list returned by _merge_sets while the groups stay the same *)
+Example C05_ex_merge_order :
+  map (map pid) (merge_sets [[ex_p 3 20 30; ex_p 5 40 50]; [ex_p 1 0 10; ex_p 5 40 50]]) = [[1; 3; 5]] /\
+  map (map pid) (merge_sets [[ex_p 1 0 10; ex_p 5 40 50]; [ex_p 3 20 30; ex_p 5 40 50]]) = [[1; 3; 5]].
+Proof. split; vm_compute; reflexivity. Qed.
